@@ -390,3 +390,72 @@ Proof.
   pose proof (H1 lx ax ay ly ux uy c1 k1 F1 F2 F3 F4 N1 T1 T2) as R1. rewrite L1 in R1.
   pose proof (H2 lx ax ay ly ux uy c2 k2 G1 G2 G3 G4 N2 T3 T4) as R2. rewrite L2 in R2. auto.
 Qed.
+
+(** ---------------------------------------------------------------- ONE BIT: the stored class depends on the cut only through
+    whether the ligand of the EARLIER anchor comes before it *)
+Definition early_before (C : cut) (lx ax ay ly : Z) : bool :=
+  if phi C ax <? phi C ay then wb C lx ax else wb C ly ay.
+Lemma table_bit (f g sx sy : bool) :
+  (if g then negb (Bool.eqb (xorb sx f) (xorb sy g)) else Bool.eqb (xorb sx f) (xorb sy g)) = negb (xorb (xorb sx sy) f).
+Proof. destruct f, g, sx, sy; reflexivity. Qed.
+
+Theorem stored_class_bit C (W : wf_cut C) fd (HT : templates_ok C fd) (Hwfd : wf_dict fd) B (HB : is_base C B)
+  (Hat : heavy_payload C) (Hnum : numeric_orders C) tok
+  (Htok : forall name xs T i x n, In (name, xs) (c_parts C) -> fd_get name fd = Some T ->
+     nth_error xs i = Some x -> gfind (Z.of_nat i) T = Some n -> aget ezk (na n) = tok x)
+  prev fo (HM : next_meta prev = B) (Step : resolve_step_full true true fd prev (Some (fo_m3 fo)) = Ok fo) :
+  exists m, sort_mapping (fo_m4 fo) = Ok m /\
+    forall lx ax ay ly c k, In lx (flat C) -> In ax (flat C) -> In ay (flat C) -> In ly (flat C) ->
+      is_new (fo_m5 fo) (fo_mol fo) k
+        (ez_tuple (map_get m (phi C lx)) (map_get m (phi C ax)) (map_get m (phi C ay)) (map_get m (phi C ly)) c) ->
+      exists tx ty, tok lx = Some tx /\ tok ly = Some ty /\ is_tok tx = true /\ is_tok ty = true /\
+        c = class_val (negb (xorb (xorb (is_slash tx) (is_slash ty)) (early_before C lx ax ay ly))).
+Proof.
+  destruct (returned_class_geom C W fd HT Hwfd B HB Hat Hnum tok Htok prev fo HM Step) as (m & Em & Inj & Hh & Hall).
+  exists m. split; [exact Em|]. intros lx ax ay ly c k Flx Fax Fay Fly Hnew.
+  destruct (Hall k _ Hnew) as (lx' & ax' & ay' & ly' & tx & ty & c' & F1 & F2 & F3 & F4 & T1 & T2 & K1 & K2 & _ & _ & _ & _ & _ & _ & _ & _ & Hv & Hlt & Hc).
+  assert (Eq : forall u w, In u (flat C) -> In w (flat C) -> map_get m (phi C u) = map_get m (phi C w) -> u = w).
+  { intros u w Fu Fw E. apply (phi_inj C u w Fu Fw). apply Inj; auto. }
+  unfold early_before.
+  destruct Hv as [Hv|Hv]; apply ez_tuple_inj in Hv as (E1 & E2 & E3 & E4 & <-).
+  - apply Eq in E1, E2, E3, E4; auto. subst lx' ax' ay' ly'. exists tx, ty. repeat (split; [assumption|]).
+    rewrite (proj2 (Z.ltb_lt _ _) Hlt), Hc. unfold geom, geom_cis, up. f_equal. apply table_bit.
+  - apply Eq in E1, E2, E3, E4; auto. subst lx' ax' ay' ly'. exists ty, tx. repeat (split; [assumption|]).
+    assert (G : (phi C ax <? phi C ay) = false) by (apply Z.ltb_ge; lia).
+    rewrite G, Hc. unfold geom, geom_cis, up. f_equal. rewrite table_bit. f_equal. f_equal. apply xorb_comm.
+Qed.
+
+(** exactness at the level of cuts: two cuts of a molecule that carry the same two tokens on the two ligands store the same
+    class for the four atoms IF AND ONLY IF they agree on that bit (this is the whole content of the three open classes as far
+    as stored classes go: part order and cut placement matter exactly through [early_before]) *)
+Theorem order_dependence_exact C1 C2 fd1 fd2 B1 B2 tok1 tok2 prev1 prev2 fo1 fo2 :
+  wf_cut C1 -> templates_ok C1 fd1 -> wf_dict fd1 -> is_base C1 B1 -> heavy_payload C1 -> numeric_orders C1 ->
+  wf_cut C2 -> templates_ok C2 fd2 -> wf_dict fd2 -> is_base C2 B2 -> heavy_payload C2 -> numeric_orders C2 ->
+  (forall name xs T i x n, In (name, xs) (c_parts C1) -> fd_get name fd1 = Some T ->
+     nth_error xs i = Some x -> gfind (Z.of_nat i) T = Some n -> aget ezk (na n) = tok1 x) ->
+  (forall name xs T i x n, In (name, xs) (c_parts C2) -> fd_get name fd2 = Some T ->
+     nth_error xs i = Some x -> gfind (Z.of_nat i) T = Some n -> aget ezk (na n) = tok2 x) ->
+  next_meta prev1 = B1 -> next_meta prev2 = B2 ->
+  resolve_step_full true true fd1 prev1 (Some (fo_m3 fo1)) = Ok fo1 -> resolve_step_full true true fd2 prev2 (Some (fo_m3 fo2)) = Ok fo2 ->
+  exists m1 m2, sort_mapping (fo_m4 fo1) = Ok m1 /\ sort_mapping (fo_m4 fo2) = Ok m2 /\
+    forall lx ax ay ly c1 c2 k1 k2,
+      In lx (flat C1) -> In ax (flat C1) -> In ay (flat C1) -> In ly (flat C1) ->
+      In lx (flat C2) -> In ax (flat C2) -> In ay (flat C2) -> In ly (flat C2) ->
+      tok1 lx = tok2 lx -> tok1 ly = tok2 ly ->
+      is_new (fo_m5 fo1) (fo_mol fo1) k1
+        (ez_tuple (map_get m1 (phi C1 lx)) (map_get m1 (phi C1 ax)) (map_get m1 (phi C1 ay)) (map_get m1 (phi C1 ly)) c1) ->
+      is_new (fo_m5 fo2) (fo_mol fo2) k2
+        (ez_tuple (map_get m2 (phi C2 lx)) (map_get m2 (phi C2 ax)) (map_get m2 (phi C2 ay)) (map_get m2 (phi C2 ly)) c2) ->
+      (c1 = c2 <-> early_before C1 lx ax ay ly = early_before C2 lx ax ay ly).
+Proof.
+  intros W1 HT1 D1 HB1 Hat1 Hn1 W2 HT2 D2 HB2 Hat2 Hn2 Htok1 Htok2 HM1 HM2 S1 S2.
+  destruct (stored_class_bit C1 W1 fd1 HT1 D1 B1 HB1 Hat1 Hn1 tok1 Htok1 prev1 fo1 HM1 S1) as (m1 & Em1 & H1).
+  destruct (stored_class_bit C2 W2 fd2 HT2 D2 B2 HB2 Hat2 Hn2 tok2 Htok2 prev2 fo2 HM2 S2) as (m2 & Em2 & H2).
+  exists m1, m2. split; [exact Em1|]. split; [exact Em2|].
+  intros lx ax ay ly c1 c2 k1 k2 F1 F2 F3 F4 G1 G2 G3 G4 Tx Ty N1 N2.
+  destruct (H1 lx ax ay ly c1 k1 F1 F2 F3 F4 N1) as (tx & ty & T1 & T2 & _ & _ & ->).
+  destruct (H2 lx ax ay ly c2 k2 G1 G2 G3 G4 N2) as (tx' & ty' & T1' & T2' & _ & _ & ->).
+  assert (tx' = tx) by congruence. assert (ty' = ty) by congruence. subst tx' ty'.
+  destruct (early_before C1 lx ax ay ly), (early_before C2 lx ax ay ly), (is_slash tx), (is_slash ty); cbn;
+    split; intros Q; try reflexivity; try discriminate Q; exfalso; vm_compute in Q; discriminate Q.
+Qed.
